@@ -138,5 +138,19 @@ PROPS["C19"] = dict(
     assumptions=["system libogg 1.3.5 is correct"],
 )
 
+PROPS["C11"] = dict(
+    engine="rc", engine_name="rc-tape", sources=["props/c11.cpp"], level="exploration", design_ref="3.12", tape_scale=6,
+    quick=dict(cases=500), thorough=dict(cases=10000),
+    technique="property-based testing (rapidcheck tapes): metamorphic comparison of a disturbed decode (drop, duplicate, truncate, bit flips, random bytes, swap, restart, fresh decoder) with the undisturbed decode, per-packet segments compared bit-exactly",
+    level_text="Generated streams (bundled encoder with block switching, and synthetic vgen streams) of 6..60 packets with pure-lapping or page-style granule positions; 1..3 generated disturbances; output is recorded per blockin call and every "
+               "segment from the second packet after the last disturbance on (and every segment before the first) must be bit-identical to the clean decode; a second arm re-pages the damaged stream with valid checksums and compares what "
+               "vorbisfile returns outside the neighbourhood, located by ov_pcm_tell, with the clean decode.",
+    level_note="Trusted: system libogg, harness pager. The trimmed final segment is compared in full only when a granule position lies between the disturbance and the end (otherwise its common prefix). The vorbisfile arm allows one long "
+               "block of slack around the neighbourhood and, after a dropped/duplicated/swapped packet, compares only the part before it by position.",
+    rule="case = stream + granule variant + disturbances (kind, packet index, parameters); non-trivial = the disturbed decode differs from the clean one inside the neighbourhood (the damage had an effect); distinct by hash of (stream description, disturbances)",
+    require_labels=["drop", "duplicate", "truncate", "flip", "random bytes", "swap", "restart before", "fresh decoder at", "disturbance changed its own neighbourhood", "vorbisfile arm compared samples", "synthetic (vgen) stream", "granule positions all -1", "page-style granule positions"],
+    assumptions=["system libogg 1.3.5 is correct"],
+)
+
 NOT_APPLICABLE = {}
 HOOK_COMMITS = []
